@@ -298,11 +298,15 @@ func csWider(v uint64) [][]byte {
 // refuse through a recovered panic (>= 2^48 entries exceed Go's maximal allocation, >= 2^63 are
 // negative as int); "costly" values make gocoin allocate hundreds of MiB or kill the worker with a
 // fatal out-of-memory error, so only a sample of them is issued per batch.
-var cheapCounts = []uint64{1 << 16, 1<<16 + 1, 1 << 20, 1 << 48, 1 << 62, 1<<63 - 1, 1 << 63, 1<<64 - 1}
+var cheapCounts = []uint64{1 << 16, 1<<16 + 1, 1 << 20, 1 << 63, 1<<64 - 1}
+var cheapPositive = []uint64{1 << 48, 1 << 62, 1<<63 - 1} // beyond Go's maximal allocation, positive as int
 var costlyCounts = []uint64{1 << 24, reftx.MaxSize, reftx.MaxSize + 1, 1 << 28, 1<<31 - 1, 1 << 31, 1<<32 - 1, 1 << 32, 1 << 36, 1 << 40, 1 << 44}
 
 func hugeSample(r *vlib.Rand, costlyNum, costlyDen int) []uint64 {
 	out := append([]uint64{}, cheapCounts...)
+	if r.Chance(1, 3) {
+		out = append(out, cheapPositive[r.Intn(len(cheapPositive))])
+	}
 	if r.Chance(costlyNum, costlyDen) {
 		out = append(out, costlyCounts[r.Intn(len(costlyCounts))])
 	}
